@@ -18,6 +18,7 @@ import Mathlib.Tactic.FieldSimp
 import Mathlib.Tactic.SplitIfs
 import Mathlib.Tactic.NormNum
 import Mathlib.Tactic.Push
+import Mathlib.Tactic.CongrExclamation
 
 set_option linter.unusedTactic false
 set_option linter.unreachableTactic false
@@ -65,3 +66,15 @@ macro "tie_close" : tactic =>
     | ((try tie_norm); (try (repeat' split));
        all_goals (try (simp only [*, reduceCtorEq, Option.some.injEq] at *));
        all_goals (try subst_vars); all_goals (try tie_norm); all_goals tie_branch))
+
+/-- closing step for terms that agree up to arithmetic re-arrangement under binders (loop bodies):
+normalise everywhere (`ring_nf` also works under binders), else descend one constructor / binder at a
+time and try again on the real-valued subterms only -/
+syntax "tie_deep" : tactic
+macro_rules
+  | `(tactic| tie_deep) =>
+    `(tactic| first
+      | rfl
+      | (ring_nf; done)
+      | (funext _; tie_deep)
+      | (congr 1 <;> tie_deep))
